@@ -28,7 +28,7 @@ pub struct Dims {
     pub date: u8,     // 0 in window, 1 malformed, 2 expired, 3 future
     pub cred: u8,     // 0 ok, 1 four parts, 2 six parts, 3 region, 4 service, 5 terminator, 6 date, 7 all wrong
     pub provider: u8, // 0 key, 1 ExpiredToken, 2 InvalidClientTokenId, 3 IO, 4 MalformedQueryString, 5 foreign
-    pub sig: u8,      // 0 ok, 1 wrong
+    pub sig: u8,      // 0 ok, 1 wrong (64 hex), 2 too long (65), 3 empty, 4 truncated (63)
 }
 
 impl Dims {
@@ -138,10 +138,16 @@ pub fn materialize(d: &Dims) -> Option<Case> {
     }
     let sig = built.signed.signature.clone();
     // signature
-    if d.sig == 1 {
-        let last = sig.as_bytes()[63];
-        let repl = if last == b'0' { '1' } else { '0' };
-        replace_in_request(&mut w, &sig, &format!("{}{}", &sig[..63], repl));
+    match d.sig {
+        1 => {
+            let last = sig.as_bytes()[63];
+            let repl = if last == b'0' { '1' } else { '0' };
+            replace_in_request(&mut w, &sig, &format!("{}{}", &sig[..63], repl));
+        }
+        2 => replace_in_request(&mut w, &sig, &format!("{}0", sig)),
+        3 => replace_in_request(&mut w, &sig, ""),
+        4 => replace_in_request(&mut w, &sig, &sig[..63]),
+        _ => {}
     }
     // missing parameters / algorithm / syntax / carrier: wire edits
     match carrier {
@@ -398,7 +404,7 @@ fn dims_space(thorough: bool, query_carrier: bool) -> Vec<Vec<u8>> {
             full(4),
             full(8),
             full(6),
-            full(2),
+            full(5),
         ]
     } else {
         vec![
@@ -412,7 +418,7 @@ fn dims_space(thorough: bool, query_carrier: bool) -> Vec<Vec<u8>> {
             full(4),
             vec![0, 1, 3, 6, 7],
             vec![0, 1, 3, 5],
-            full(2),
+            full(4),
         ]
     }
 }
@@ -515,7 +521,7 @@ pub fn run(ctx: &Ctx) -> Report {
     Report {
         stats: st,
         rule: format!(
-            "precedence automaton over the 14 documented stages; full product of defect vectors per carrier ({} header-carrier, {} query-carrier vectors): path {{ok, %zz, trailing %, above root, '*'}} x query {{ok, %zz, trailing %}} x carrier {{one, none, both, both with a non-SigV4 second carrier}} x algorithm x parameter syntax x missing ⊆ {{credential, signature, signed headers, date}} x requirements {{ok, host, always, conditional, prefix unsigned}} x date {{in window, malformed, expired, future}} x credential {{ok, 4 parts, 6 parts, region, service, terminator, date, all wrong}} x provider {{key, ExpiredToken, InvalidClientTokenId, IO, MalformedQueryString, foreign}} x signature {{ok, wrong}}{}; every vector is materialised as a concrete request (correctly signed wherever a signature is still meaningful; 1 in 16 cross-checked against the reference verifier) and replayed on sigv4_validate_request: kind, code, status, downcast to SignatureError, status class and provider consultation compared with the automaton's terminal; plus the kind->(code,status) table for every variant directly and through From<Box<dyn Error>>. states = (stage, vector prefix) pairs of the model; transitions = stage steps",
+            "precedence automaton over the 14 documented stages; full product of defect vectors per carrier ({} header-carrier, {} query-carrier vectors): path {{ok, %zz, trailing %, above root, '*'}} x query {{ok, %zz, trailing %}} x carrier {{one, none, both, both with a non-SigV4 second carrier}} x algorithm x parameter syntax x missing ⊆ {{credential, signature, signed headers, date}} x requirements {{ok, host, always, conditional, prefix unsigned}} x date {{in window, malformed, expired, future}} x credential {{ok, 4 parts, 6 parts, region, service, terminator, date, all wrong}} x provider {{key, ExpiredToken, InvalidClientTokenId, IO, MalformedQueryString, foreign}} x signature {{ok, wrong, too long, empty, truncated}}{}; every vector is materialised as a concrete request (correctly signed wherever a signature is still meaningful; 1 in 16 cross-checked against the reference verifier) and replayed on sigv4_validate_request: kind, code, status, downcast to SignatureError, status class and provider consultation compared with the automaton's terminal; plus the kind->(code,status) table for every variant directly and through From<Box<dyn Error>>. states = (stage, vector prefix) pairs of the model; transitions = stage steps",
             sizes[0], sizes[1], if thorough { "" } else { " (quick: a sub-lattice with at least one defect variant per stage and missing ∈ {none, each singleton, all})" }
         ),
         bounds: json!({"header_vectors": sizes[0], "query_vectors": sizes[1]}),
